@@ -2,8 +2,10 @@ package gvc
 
 import (
 	"fmt"
+	"go/ast"
 	"go/token"
 	"go/types"
+	"strings"
 
 	"golang.org/x/tools/go/ssa"
 )
@@ -27,6 +29,11 @@ func (vc *VC) obligeSafety(kind, goal string, pos token.Pos) {
 func (vc *VC) instr(ins ssa.Instruction) {
 	switch ins := ins.(type) {
 	case *ssa.DebugRef:
+		if id, ok := ins.Expr.(*ast.Ident); ok && !ins.IsAddr && id.Name != "_" {
+			if _, isFn := ins.X.(*ssa.Function); !isFn {
+				vc.localRefs[id.Name] = append(vc.localRefs[id.Name], localRef{ins.X, vc.cur})
+			}
+		}
 	case *ssa.Alloc:
 		vc.alloc(ins)
 	case *ssa.FieldAddr:
@@ -416,7 +423,107 @@ func (vc *VC) frameCheck(ptr ssa.Value, pos token.Pos) {
 	if allowed {
 		return
 	}
-	vc.oblige("frame", "store-to-fresh", fmt.Sprintf("(> %s %s)", base, vc.entryAlloc), vc.fc.allTags(), pos, nil)
+	// object-level entries ("p.Field"): the store may also hit exactly that object
+	goal := fmt.Sprintf("(> %s %s)", base, vc.entryAlloc)
+	if len(keys) == 1 {
+		for _, om := range vc.objMods() {
+			if om.key == keys[0] {
+				goal = fmt.Sprintf("(or %s (= %s %s))", goal, base, om.obj)
+			}
+		}
+	}
+	vc.oblige("frame", "store-to-fresh", goal, vc.fc.allTags(), pos, nil)
+}
+
+type objMod struct {
+	key, obj, src string
+}
+
+// objMods: the object-level modifies entries of the function under verification ("p.Field"), evaluated at entry.
+func (vc *VC) objMods() []objMod {
+	if vc.objModCache != nil || vc.fc == nil {
+		return vc.objModCache
+	}
+	vc.objModCache = []objMod{}
+	env := vc.envAt(vc.entry, vc.entry)
+	for _, m := range vc.fc.Modifies {
+		if key, obj, ok := vc.resolveObjMod(m, env); ok {
+			vc.objModCache = append(vc.objModCache, objMod{key, obj, m})
+		}
+	}
+	return vc.objModCache
+}
+
+// resolveObjMod: "x.F" where x is a specification expression of pointer-to-struct type (typically a parameter).
+func (vc *VC) resolveObjMod(m string, env *specEnv) (key, obj string, ok bool) {
+	if strings.HasPrefix(m, "*") && !strings.ContainsAny(m[1:], "./* ") {
+		// "*p": the cell a pointer parameter points to
+		v, isVar := env.vars[m[1:]]
+		if !isVar || v.typ == nil {
+			return "", "", false
+		}
+		pt, isPtr := v.typ.Underlying().(*types.Pointer)
+		if !isPtr {
+			// interface-typed target (errors.As): the pointee type is not known statically
+			return "", "", false
+		}
+		if _, isStruct := structOf(pt.Elem()); isStruct {
+			return "", "", false
+		}
+		return vc.cellKey(pt.Elem()), v.term, true
+	}
+	if !strings.Contains(m, ".") || strings.Contains(m, "/") || strings.HasSuffix(m, "*") {
+		return "", "", false
+	}
+	e, err := ParseSpec(m)
+	if err != nil {
+		return "", "", false
+	}
+	f, isField := e.(*EField)
+	if !isField {
+		return "", "", false
+	}
+	head := f.X
+	for {
+		if ff, ok := head.(*EField); ok {
+			head = ff.X
+			continue
+		}
+		break
+	}
+	id, isIdent := head.(*EIdent)
+	if !isIdent {
+		return "", "", false
+	}
+	if _, isVar := env.vars[id.Name]; !isVar {
+		if _, isCell := env.freeCells[id.Name]; !isCell {
+			return "", "", false
+		}
+	}
+	defer func() {
+		if r := recover(); r != nil {
+			if _, isGen := r.(genErr); isGen {
+				ok = false
+				return
+			}
+			panic(r)
+		}
+	}()
+	x := vc.tr(f.X, env, nil)
+	if x.typ == nil {
+		return "", "", false
+	}
+	st := deref(x.typ)
+	s, isStruct := structOf(st)
+	if !isStruct {
+		return "", "", false
+	}
+	for i := 0; i < s.NumFields(); i++ {
+		if s.Field(i).Name() == f.Name {
+			return vc.fieldKey(st, i), x.term, true
+		}
+	}
+	return "", "", false
 }
 
 // storeBase: the object reference a store goes to (for freshness checks).
@@ -454,6 +561,17 @@ func (vc *VC) modAllows(fc *FuncContract, key string) bool {
 		if m == "*" || m == "heap" && isHeapKey(key) {
 			return true
 		}
+		if fc == vc.fc {
+			isObj := false
+			for _, om := range vc.objMods() {
+				if om.src == m {
+					isObj = true
+				}
+			}
+			if isObj {
+				continue
+			}
+		}
 		if keyMatches(key, m) {
 			return true
 		}
@@ -467,6 +585,12 @@ func keyMatches(key, m string) bool {
 		return false
 	}
 	body := key[2:]
+	if m == "cells" {
+		return key[0] == 'C'
+	}
+	if strings.HasSuffix(m, "*") && key[0] != 'G' {
+		return strings.HasPrefix(body, m[:len(m)-1]) || strings.HasPrefix(strings.TrimPrefix(body, "*"), m[:len(m)-1])
+	}
 	if key[0] == 'G' {
 		return body == m
 	}
